@@ -267,6 +267,7 @@ def showMatchErr : TcRules.MatchErr → String
   | .variantHasNoFields => "no-fields" | .patternArity => "arity"
   | .needArguments => "need-arguments" | .declaredTwice => "declared-twice"
   | .nonExhaustive => "non-exhaustive"
+  | .unreachableDuplicate => "unreachable"
 
 def csv (s : String) : List String := (s.splitOn ",").filter (· ≠ "")
 
